@@ -1,5 +1,6 @@
 /- C10 driver: stream `arith`:  `<op> <wire a> [<wire b>]`  ->  `ok <wire>` | `err <class>` -/
 import Gojq.Model.Arith
+import Gojq.Model.Compare
 import Gojq.Model.Wire
 import Driver.Common
 open Gojq Gojq.Wire
@@ -16,6 +17,17 @@ def arithLine (line : String) : String :=
         | "div" => some (opDivNum a b)
         | "mod" => some (opModNum a b)
         | _ => none
+      let c := cmpNum a b
+      let b? : Option Bool := match op with
+        | "lt" => some (c == .lt)
+        | "le" | "srt" => some (c != .gt)
+        | "eq" | "idx" => some (c == .eq)
+        | "ne" => some (c != .eq)
+        | "gt" => some (c == .gt)
+        | "ge" => some (c != .lt)
+        | _ => none
+      if let some b := b? then (if b then "ok t" else "ok f") else
+      if op == "unq" then (if c == .eq then "ok i1" else "ok i2") else
       match r with
       | some (.ok n) => "ok " ++ numToWire n
       | some (.error .zeroDivision) => "err zerodiv"
